@@ -134,6 +134,12 @@ func main() {
 // analyzeRepo runs the whole translation on the module rooted at repoDir
 func analyzeRepo(repoDir string, excs []exception, verbose bool) (*output, []string, error) {
 	root, _ := filepath.Abs(repoDir)
+	// the source importer resolves third-party modules from the working directory's module
+	if wd, err := os.Getwd(); err == nil {
+		if os.Chdir(root) == nil {
+			defer func() { _ = os.Chdir(wd) }()
+		}
+	}
 	l, err := newLoader(root)
 	if err != nil {
 		return nil, nil, err
